@@ -1767,3 +1767,33 @@ func (ps *PathSim) tailSelfCall(fn *ssa.Function, b, pred *ssa.BasicBlock, st *p
 	}
 	return args, rep, retI, true
 }
+
+// ApplyClosure continues the path of st by calling the function value clo with the given arguments: the function's body is
+// interpreted from a copy of st (so what the closure captured — locals of the path that made it — is still known).
+func (ps *PathSim) ApplyClosure(st *pstate, clo *Sym, args []*Sym) []*Summary {
+	f, bindings := ps.funcOfSym(clo)
+	if f == nil || len(f.Blocks) == 0 {
+		return nil
+	}
+	st2 := st.clone()
+	for i, p := range f.Params {
+		if i < len(args) {
+			st2.env[p] = args[i]
+		}
+	}
+	for i, fv := range f.FreeVars {
+		if i < len(bindings) {
+			st2.env[fv] = bindings[i]
+		}
+	}
+	for _, b := range f.Blocks {
+		delete(st2.visits, b)
+	}
+	var out []*Summary
+	saved := ps.out
+	ps.walk(f, f.Blocks[0], 0, nil, st2, 0, func(st3 *pstate, r *ssa.Return, res []*Sym) {
+		out = append(out, &Summary{Fn: f, Ret: r, St: st3, Results: res})
+	})
+	ps.out = saved
+	return out
+}
